@@ -456,7 +456,7 @@ fn writer_tour(case: &Value) {
     use vrp_pragmatic::format::solution::{write_pragmatic, PragmaticOutputType};
     let problem_json = case["problem"].to_string();
     let matrix_json = case["matrix"].to_string();
-    let problem = Arc::new((problem_json, vec![matrix_json]).read_pragmatic().unwrap_or_else(|e| panic!("cannot read problem: {e}")));
+    let problem = Arc::new((problem_json, vec![matrix_json]).read_pragmatic().unwrap_or_else(|e| setup_failed("cannot read problem", e)));
     let actor = problem.fleet.actors[0].clone();
     let mut rc = RouteContext::new(actor);
     for id in case["order"].as_array().unwrap() {
@@ -502,6 +502,31 @@ fn job_rules(case: &Value) {
     println!("{}", serde_json::to_string(&json!({"codes": codes})).unwrap());
 }
 
+/// Solution checker replay: problem, matrix and solution documents are parsed by the real (de)serialisers, the real
+/// `CheckerContext::check` runs all rule groups; the error messages are printed.
+fn checker(case: &Value) {
+    use std::io::BufReader;
+    use vrp_pragmatic::checker::CheckerContext;
+    use vrp_pragmatic::format::problem::{deserialize_matrix, deserialize_problem, PragmaticProblem};
+    use vrp_pragmatic::format::solution::deserialize_solution;
+    let problem = deserialize_problem(BufReader::new(case["problem"].to_string().as_bytes())).unwrap_or_else(|e| setup_failed("problem", e));
+    let matrix = deserialize_matrix(BufReader::new(case["matrix"].to_string().as_bytes())).unwrap_or_else(|e| setup_failed("matrix", e));
+    let solution = deserialize_solution(BufReader::new(case["solution"].to_string().as_bytes())).unwrap_or_else(|e| setup_failed("solution", e));
+    let core = Arc::new((problem.clone(), vec![matrix.clone()]).read_pragmatic().unwrap_or_else(|e| setup_failed("cannot read problem", e)));
+    let errors: Vec<String> = match CheckerContext::new(core, problem, Some(vec![matrix]), solution).and_then(|ctx| ctx.check()) {
+        Ok(()) => vec![],
+        Err(errors) => errors.iter().map(|e| e.to_string()).collect(),
+    };
+    println!("{}", serde_json::to_string(&json!({"errors": errors})).unwrap());
+}
+
+/// A failure to set the scenario up (documents rejected by the reader, ..) is not a behaviour of the code under test:
+/// exit code 3, distinguished from a panic (101) by the caller.
+fn setup_failed(what: &str, err: impl std::fmt::Display) -> ! {
+    eprintln!("REPLAY-SETUP-FAILED {what}: {err}");
+    std::process::exit(3)
+}
+
 fn main() {
     let path = std::env::args().nth(1).expect("usage: verif-replay <case.json>");
     let case: Value = serde_json::from_str(&std::fs::read_to_string(path).unwrap()).unwrap();
@@ -510,6 +535,9 @@ fn main() {
     }
     if case["kind"] == "job_rules" {
         return job_rules(&case);
+    }
+    if case["kind"] == "checker" {
+        return checker(&case);
     }
     if case["kind"] == "goal_order" {
         return goal_order(&case);
